@@ -3,10 +3,17 @@
 //! usage: adfmc check <ID> [--tier quick|thorough] [--seed N]
 //!        adfmc replay <file>
 
+mod adfcalls;
 mod bddx;
 mod c05;
 mod c06_07;
+mod c11;
+mod c13;
+mod c14;
+mod cli;
 mod c18;
+#[cfg(feature = "frontend")]
+mod c19;
 mod c20;
 mod fam;
 mod oracle;
@@ -48,7 +55,12 @@ fn main() {
                 "C05" => c05::run_c05(&run),
                 "C06" => c06_07::run_c06(&run),
                 "C07" => c06_07::run_c07(&run),
+                "C11" => c11::run_c11(&run),
+                "C13" => c13::run_c13(&run),
+                "C14" => c14::run_c14(&run),
                 "C18" => c18::run_c18(&run),
+                #[cfg(feature = "frontend")]
+                "C19" => c19::run_c19(&run),
                 "C20" => c20::run_c20(&run),
                 _ => machinery_error("unknown property id"),
             }
@@ -64,7 +76,12 @@ fn main() {
                     "C01" | "C02" | "C03" | "C04" => sem::replay_sem(&prop, case),
                     "C05" => c05::replay(case),
                     "C06" | "C07" => c06_07::replay(&prop, case),
+                    "C11" => c11::replay(case),
+                    "C13" => c13::replay(case),
+                    "C14" => c14::replay(case),
                     "C18" => c18::replay(case),
+                    #[cfg(feature = "frontend")]
+                    "C19" => c19::replay(case),
                     "C20" => c20::replay(case),
                     _ => machinery_error("replay: unknown property"),
                 }
